@@ -63,6 +63,14 @@ def gensOp (j : Json) : R Json := do
   | "cartan" =>
     let C ← matf n n j "C"
     return .arr ((fins n).map fun i => ofD (DMat.ofMatrix (refl C i))).toArray
+  | "cartanhyp" =>
+    -- `cartan_representation(C, diagonalize=True)`: the reflections of `C` itself, conjugated by the supplied pair
+    let C ← matf n n j "C"
+    let W := DMat.ofMatrix (← matf n n j "W")
+    let Wi := DMat.ofMatrix (← matf n n j "Winv")
+    if !(diagGuard (1 / 10000000000 : ℚ) W.toMatrix Wi.toMatrix) then throw "GeometryError"
+    return .arr ((fins n).map fun i =>
+      ofD (DMat.ofMatrix (conjMat W.toMatrix Wi.toMatrix (DMat.ofMatrix (refl C i)).toMatrix))).toArray
   | "vinberg" =>
     -- `tits_vinberg_rep(parameters)`
     let B ← getB n j
